@@ -16,3 +16,11 @@ CLAIMS.update({
         "Trusts go/ssa, math/big and the hash primitives; decides which values are hashed and in what width, not the SRP equations.",
         T+"forward width rule, guard dominance with relation normalisation of big.Int.Cmp idioms, variadic-argument origin tracing"),
 })
+CLAIMS.update({
+ "C03":("other","Sibling cross-check of both directions of the envelope against the MTProto 1.0 layout table: ordered Put*/Pop* sequences (width + origin/destination label) on every success path of the five (de)serialisers, ack bit on exactly the requireToAck arm, same plaintext/key for msg_key, auth_key_id and ciphertext, digest windows, direction selector of the key schedule, padding over all residues, 8-byte discrimination. The byte windows inside generateAESIGE and the cipher are not decided.",
+        "Trusts go/ssa and the transcribed layout table; path enumeration is exhaustive for these loop-free functions.",
+        T+"codec-sequence extraction over all acyclic CFG paths, SSA origin/destination labelling, comparison with a spec table and between siblings"),
+ "C04":("other","Acceptance is decided as edge dominance: the value-returning exit of DeserializeEncrypted is dominated by the key-id and msg_key comparisons (operands by origin; digest over exactly decrypted[0:32+len]), reachable only for msg_id residues {1,3}; every packet-sized allocation/slice is bounded wherever reachable on a boundary grid of (len(data), declared length) with int32 wrap-around; plain packets and transport.ReadMsg likewise. 'Never panics' is decided for these sized operations only, not for every instruction.",
+        "Trusts go/ssa, SHA-1 collision resistance, and that affine guards have their extremes on the grid (11 packet lengths x 14 declared lengths incl. -2^31, -1, len±1, 2^31-1).",
+        T+"guard dominance, abstract evaluation of the control skeleton on a boundary grid (forced branches), residue-class evaluation of parity tests"),
+})
